@@ -19,11 +19,17 @@ def part(ctx):
         mid = rng.choice([x for x in (2 ** 12, 2 ** 16, 2 ** 24, 2 ** 31) if x >= b])
         m = molfacts.gridded(m0, conf_ids={cid})
         c = m1lib.Case(name, m, cid, o, bits=b, counts=counts)        # a fingerprinter created WITH bits=b
-        if c.err is not None or c.unstable:
+        if c.unstable:
+            continue
+        if c.err is not None:
+            if c.heavy_retained() and not c.has_offtable_bond():
+                found = True
+                ctx.fail('Fingerprinter(bits=%d) raised %s' % (b, c.exc), c.payload(), finding_key=None)
             continue
         lv = rng.choice([None, 0, 1, c.k])
-        r_direct = c.add_query(lv, b, [])                              # uses the constructor's bits
-        r_arg = m1lib.query_impl(c.f, lv, b, [])
+        r_direct = m1lib.query_impl(c.f, lv, None, [])                  # bits=None: the constructor's bits
+        c.queries.append((lv, b, [], r_direct))
+        r_arg = m1lib.query_impl(c.f, lv, b, [])                        # explicit bits argument
         full = c.f.get_fingerprint_at_level(level=lv, bits=2 ** 32)
         one = fpgen.obs(full.fold(b))
         two = fpgen.obs(full.fold(mid).fold(b))
